@@ -55,11 +55,15 @@ def is_t(x):
 
 # phi bookkeeping: key -> {pred: incoming term}
 PHI = {}
+# id of a loop-head join that is a set-once cell holding the FIRST element of the traversed collection
+# (`let mut first = None; for x in xs { if first.is_none() { first = Some(x) } .. }`) -> the term of that first element
+FIRST_CELLS = {}
 
 
 def reset():
     _TABLE.clear()
     PHI.clear()
+    FIRST_CELLS.clear()
     _N[0] = 0
 
 
